@@ -85,7 +85,7 @@ def run(ctx):
     count = ctx.pick(400, 4000)
     cpath = os.path.join(ctx.work, "dp_cases.ndjson")
     lpath = os.path.join(ctx.work, "dp_lines.ndjson")
-    ctx.run_tool(binary, ["measure", "--seed", str(ctx.seed), "--count", str(count), "--maxn", "40",
+    ctx.run_tool(binary, ["measure", "--seed", str(ctx.seed), "--count", str(count), "--maxn", "44",
                           "--cases", cpath, "--lines", lpath])
     r = ctx.tlc("DouglasPeuckerTrace", "DouglasPeuckerTrace.cfg", files={"dp_cases.ndjson": open(cpath).read()},
                 workers=1, heap="4g", timeout=1500)
@@ -112,7 +112,7 @@ def run(ctx):
              "kept indices). Seeded lines of each length are generated, their oracle measured with the real distance(), "
              "matched to the behaviour, and renderer.Simplify, douglasPeuckerSimplify and the recursive reference are "
              "compared with TLC's indices, with each other, and checked for end points and subsequence. Seeded lines "
-             "of 2..40 points (random, integer grids with ties, collinear, closed, duplicate points, zigzags, spikes; "
+             "of 2..44 points (random, integer grids with ties, collinear, closed, duplicate points, zigzags, spikes; "
              "epsilon 0, tiny, huge, +Inf, exactly a measured distance) have their complete oracle measured, TLC runs "
              "the model on it, the real functions are compared with the result. distinct = model behaviours realised "
              "+ distinct (length, answers read) classes among the measured lines.",
